@@ -20,7 +20,7 @@ ID = 'C13'
 LEVEL = 'exploration'
 RUN_TIMEOUT = 25.0
 CHUNK = 100
-TIERS = {'quick': dict(runs=60000, budget_s=70), 'thorough': dict(runs=2500000, budget_s=1500)}
+TIERS = {'quick': dict(runs=60000, budget_s=240), 'thorough': dict(runs=2500000, budget_s=1500)}
 KINDS = ['list', 'dict', 'tuple', 'box']
 # bundled container printers that take part in cycle detection too (seeded histories only)
 MORE_KINDS = ['deque', 'odict', 'ns', 'mylist', 'mydict', 'ddict', 'ntuple', 'chainmap']
